@@ -1,6 +1,8 @@
 /-
   C01/FnDriver — request `fn <fuel> <program>`: run the ES5 function-layer interpreter (FnSpec).
   reply token: t:[log tokens];k:normal:<completion value> | k:throw:<value>
+  model = spec except in the Dev regions forin_break_value / forin_revisit, where the model side runs
+  with St.ottoCV / St.ottoShadow
 -/
 import OttoVerif.C01.FnSpec
 import OttoVerif.C01.Driver
@@ -48,6 +50,8 @@ partial def feOf : SX → Option FE
   | .node "ty" [a] => do pure (.typeof (← feOf a))
   | .node "in" [a, f] => do pure (.inst (← feOf a) (← feOf f))
   | .node "log" [a] => do pure (.log (← feOf a))
+  | .node "val" [a] => do pure (.val (← feOf a))
+  | .node "dne" [o, .node p [], e] => do pure (.defNE (← feOf o) p (← feOf e))
   | .node "evd" [.node "V" vs, .node "D" ds, .node "S" ss] => do pure (.evalD (names vs) (← declsOf ds) (← fssOf ss))
   | .node "evi" [.node "V" vs, .node "D" ds, .node "S" ss] => do pure (.evalI (names vs) (← declsOf ds) (← fssOf ss))
   | .node a [] => (pvOf a).map .lit
@@ -72,11 +76,45 @@ partial def fsOf : SX → Option FS
   | .node "T" [e] => do pure (.throwS (← feOf e))
   | .node "Y" [.node "S" b, .node hc [], .node p [], .node "S" c, .node hf [], .node "S" f] => do
       pure (.tryS (← fssOf b) (hc = "1") p (← fssOf c) (hf = "1") (← fssOf f))
+  | .node "VS" [.node x [], e] => do pure (.varS x (← feOf e))
+  | .node "B" ss => do pure (.block (← fssOf ss))
+  | .node "WI" [o, .node "S" b] => do pure (.withS (← feOf o) (← fssOf b))
+  | .node "FI" [.node isVar [], .node x [], o, .node "S" b] => do pure (.forIn (isVar = "1") x (← feOf o) (← fssOf b))
+  | .node "LB" [.node l [], s] => do pure (.label l (← fsOf s))
+  | .node "BR" [.node l []] => some (.brk (optName l))
+  | .node "CN" [.node l []] => some (.cont (optName l))
   | _ => none
 partial def fssOf : List SX → Option FSs
   | [] => some .nil
   | x :: r => do pure (.cons (← fsOf x) (← fssOf r))
 end
+
+/-- does a statement of this (function or eval) body, at any depth, have one of the given heads? -/
+partial def hasStmt (heads : List String) : SX → Bool
+  | .node nm as =>
+    if heads.contains nm then true
+    else if nm = "fn" || nm = "evd" || nm = "evi" then false
+    else as.any (hasStmt heads)
+
+/-- Dev region `forin_break_value` (decidable on the request): somewhere in the program there is a
+    for-in statement whose body contains both an expression statement and a `break`.  Only the
+    completion VALUE of such a for-in can differ (otto: a for-in left by break yields the value it had
+    when it started on the current object of the prototype chain; ES5 §12.6.4 step 6.f: V). -/
+partial def devForInBreak : SX → Bool
+  | .node nm as =>
+    (match nm, as with
+     | "FI", [_, _, _, body] => hasStmt ["BR"] body && hasStmt ["X"] body
+     | _, _ => false) || as.any devForInBreak
+
+/-- does the term contain a node with one of these heads anywhere (functions and eval bodies included)? -/
+partial def hasNode (heads : List String) : SX → Bool
+  | .node nm as => heads.contains nm || as.any (hasNode heads)
+
+/-- Dev region `forin_revisit` (decidable on the request): the program has a for-in statement and a
+    `delete` somewhere.  Only then can a property that shadowed an inherited one disappear during an
+    enumeration, which is the one situation where otto's visit-time shadow test differs (it visits the
+    inherited property although its name has been visited already). -/
+def devForInRevisit (p : SX) : Bool := hasNode ["FI"] p && hasNode ["dl", "dle"] p
 
 def out (r : Res V) : String :=
   match r with
@@ -90,7 +128,15 @@ def handle (ws : List String) : Option String :=
     match fuel.toNat?, parseSX prog.toList with
     | some n, some (.node "FP" [.node "V" vs, .node "D" ds, .node "S" ss], []) =>
       match declsOf ds, fssOf ss with
-      | some d, some s => let o := out (runProgram n (names vs) d s); some (o ++ " " ++ o ++ " -")
+      | some d, some s =>
+        let spec := out (runProgram n (names vs) d s)
+        let p : SX := .node "FP" [.node "D" ds, .node "S" ss]
+        let dB := devForInBreak p
+        let dR := devForInRevisit p
+        if dB || dR then
+          let dev := ",".intercalate ((if dB then ["forin_break_value"] else []) ++ (if dR then ["forin_revisit"] else []))
+          some (out (runProgram n (names vs) d s dB dR) ++ " " ++ spec ++ " " ++ dev)
+        else some (spec ++ " " ++ spec ++ " -")
       | _, _ => some "bad-op"
     | _, _ => some "bad-op"
   | _ => none
